@@ -1175,9 +1175,27 @@ func dependsOn(v ssa.Value, pred func(ssa.Value) bool) ssa.Value {
 		}
 		if regionMode && depth < 3 {
 			switch x := v.(type) {
+			case *ssa.Extract:
+				// one result of a helper: only what the helper returns in that position
+				if call, ok := x.Tuple.(*ssa.Call); ok {
+					if g := transparentCallee(call.Parent(), call); g != nil {
+						for _, ri := range instrsWhereOne(g, isReturn) {
+							ret := ri.(*ssa.Return)
+							if x.Index < len(ret.Results) {
+								if hit := rec(retOperand(ret, x.Index), depth+1); hit != nil {
+									return hit
+								}
+							}
+						}
+						if pred(call) {
+							return call
+						}
+						return nil
+					}
+				}
 			case *ssa.Parameter:
 				// a helper's parameter: what its callers pass
-				if g := x.Parent(); g != nil && g.Parent() == nil && isTransparent(g, pkgOfFn(g)) {
+				if g := x.Parent(); g != nil && g.Parent() == nil && !depBoundary[g] && isTransparent(g, pkgOfFn(g)) {
 					for i, gp := range g.Params {
 						if gp != x {
 							continue
@@ -1219,6 +1237,16 @@ func dependsOn(v ssa.Value, pred func(ssa.Value) bool) ssa.Value {
 		return nil
 	}
 	return rec(v, 0)
+}
+
+// depBoundary: functions whose parameters dependsOn does not follow into their callers (a rule
+// asking "is this computed inside F or the helpers it calls" sets F here for the duration).
+var depBoundary = map[*ssa.Function]bool{}
+
+func withinFunction(f *ssa.Function, body func()) {
+	depBoundary[f] = true
+	defer delete(depBoundary, f)
+	body()
 }
 
 // bindingOf: the value bound to a closure's free variable where the closure is created.
